@@ -163,7 +163,7 @@ def roles_of(mn, ops, st0):
     return out
 
 
-def run_path(eng, pre, opcode, known=()):
+def run_path(eng, pre, opcode, known=(), skeleton=False):
     EMU, OPC, asm_str = CPU._mods()
     _install_hook(EMU)
     RN = EMU.RegisterName
@@ -205,14 +205,24 @@ def run_path(eng, pre, opcode, known=()):
         st0.need(z3.And(r["e0"] >= lo, r["e0"] <= hi, last >= lo, last <= hi))
     if mn in ("DADL", "DSBL"):
         pass
-    try:
-        eng.assume(z3.And(st0.defined)) if st0.defined else None
-    except core.PathAbort:
-        return "outside-domain"
+    # skeleton mode: the control skeleton of the loop (count decrements by one per element, the loop goes round again iff
+    # the count is not yet zero, final count 0) for EVERY count 1..0xFFFF - stated without the definedness conditions,
+    # which bound the count through the 256-byte internal space; memory/flag obligations are left to the full mode
+    SKELETON = {"init:count-unchanged", "step:count-decrements", "step:continues-only-if-elements-remain",
+                "step:exits-only-after-the-last-element", "exit:I==0", "no-exception", "loop-head-reached"}
+    if not skeleton:
+        try:
+            eng.assume(z3.And(st0.defined)) if st0.defined else None
+        except core.PathAbort:
+            return "outside-domain"
 
     from props import common
 
     def P(name, cond, detail=None):
+        if skeleton:
+            if name not in SKELETON:
+                return True
+            name = "skeleton:" + name
         return common.prove_with_known(eng, name, core._b(cond), detail or text, known, text=text)
 
     state = {"visit": 0}
@@ -254,7 +264,7 @@ def run_path(eng, pre, opcode, known=()):
                 if r not in regs_tracked:
                     P(f"init:{r}-unchanged", T(emu.regs.get(RN[r])) == T(init[r]))
             state["R0"] = {r: T(emu.regs.get(RN[r])) for r in regs_tracked}
-            if any(r.get("temp") is None for r in mem_roles):
+            if any(r.get("temp") is None for r in mem_roles) and not skeleton:
                 raise _Stop()
             # ---------------- havoc + invariant
             j = eng.fresh("j", 16)
@@ -273,7 +283,8 @@ def run_path(eng, pre, opcode, known=()):
             emu.regs._values[RN.F] = fh
             inv = [T(j) >= 0, T(j) < n, T(ih) == n - T(j)]
             for r in mem_roles:
-                inv.append(T(hv[r["temp"]]) == r["e0"] + r["dir"] * T(j))
+                if r.get("temp") is not None:
+                    inv.append(T(hv[r["temp"]]) == r["e0"] + r["dir"] * T(j))
             for rg in regs_tracked:
                 h = eng.fresh(f"h{rg}", 20)
                 emu.regs._values[RN[rg]] = h
@@ -322,7 +333,8 @@ def run_path(eng, pre, opcode, known=()):
                 # DADL/DSBL (n),A: the README does not say what the bytes after the first use
                 src_ok = (j == 0) if mn in ("DADL", "DSBL") else z3.BoolVal(True)
             if mn in ("DADL", "DSBL"):
-                eng.assume(z3.And(isa.bcd_valid(a), isa.bcd_valid(b)))
+                if not skeleton:
+                    eng.assume(z3.And(isa.bcd_valid(a), isa.bcd_valid(b)))
                 r_val, want_c = isa.bcd_addsub(a, b, c_in, mn == "DSBL")
             elif mn == "SBCL":
                 t = b + c_in
@@ -387,7 +399,8 @@ def run_path(eng, pre, opcode, known=()):
         if continues:
             P("step:continues-only-if-elements-remain", j + 1 < n)
             for ri, r in enumerate(mem_roles):
-                P(f"inv:cursor{ri}", T(emu.regs._values[RN[f"TEMP{r['temp']}"]]) == r["e0"] + r["dir"] * (j + 1))
+                if r.get("temp") is not None:
+                    P(f"inv:cursor{ri}", T(emu.regs._values[RN[f"TEMP{r['temp']}"]]) == r["e0"] + r["dir"] * (j + 1))
             for rg in regs_tracked:
                 d = [r["dir"] for r in mem_roles if r["reg"] == rg][0]
                 P(f"inv:{rg}", T(emu.regs.get(RN[rg])) == state["R0"][rg] + d * (j + 1))
@@ -432,12 +445,12 @@ def run_path(eng, pre, opcode, known=()):
     return "exits"
 
 
-def check_unit(pre, opcode, known=(), wall_s=900):
+def check_unit(pre, opcode, known=(), wall_s=900, skeleton=False):
     t0 = time.time()
     run = core.Run(max_paths=20000, wall_s=wall_s)
     status, err = "ok", None
     try:
-        core.explore(lambda eng: run_path(eng, pre, opcode, known), run=run)
+        core.explore(lambda eng: run_path(eng, pre, opcode, known, skeleton), run=run)
     except core.Undecided as e:
         status, err = "undecided", str(e)
     except core.EngineError as e:
@@ -454,7 +467,7 @@ def check_unit(pre, opcode, known=(), wall_s=900):
     for o in obs:
         if o.status == "proved":
             by[o.backend] = by.get(o.backend, 0) + 1
-    return dict(unit=dict(pre=pre, opcode=opcode, induction=True), status=status, error=err, kinds=kinds, obligations=len(obs),
+    return dict(unit=dict(pre=pre, opcode=opcode, induction=True, **({'skeleton': True} if skeleton else {})), status=status, error=err, kinds=kinds, obligations=len(obs),
                 proved=sum(o.status == "proved" for o in obs),
                 failed=[o.as_dict() for o in obs if o.status == "failed"][:14],
                 nfailed=sum(o.status == "failed" for o in obs), unknown=sum(o.status == "unknown" for o in obs),
@@ -465,7 +478,7 @@ def check_unit(pre, opcode, known=(), wall_s=900):
 def unit_entry(unit):
     from symx import env
     env.setup()
-    return check_unit(unit.get("pre"), unit["opcode"], known=unit.get("known", ()), wall_s=unit.get("wall_s", 900))
+    return check_unit(unit.get("pre"), unit["opcode"], known=unit.get("known", ()), wall_s=unit.get("wall_s", 900), skeleton=bool(unit.get("skeleton")))
 
 
 def unit_dispatch(unit):
